@@ -7,7 +7,7 @@
     the real copy loops of hrepack preserve content rests on the differential run (checks/C18.py).  The property is
     therefore claimed as PARTIAL. *)
 From Coq Require Import ZArith List Bool Arith.
-Require Import H4.gen.Gen_Repack H4.RepackSpec H4.RepackModel H4.RepackProofs.
+Require Import H4.gen.Gen_Repack H4.RepackSpec H4.RepackModel H4.RepackProofs H4.RepackStripProofs.
 Import ListNotations.
 Local Open Scope Z_scope.
 
@@ -102,20 +102,34 @@ Theorem parse_print_chunk : forall names r lens,
 Proof. exact parse_print_chunk_lemma. Qed.
 Print Assumptions parse_print_chunk.
 
-(** The strip-mining copy loop of copy_sds (objects of H4TOOLS_MALLOCSIZE bytes or more): the blocks it reads and
-    writes, taken in order and each in row-major order, are exactly the cells 0, 1, ..., N-1 of the array -- every
-    value is copied once, to its own place.  The loop's statements (strip size, hyperslab size, wrap test and carry
-    rule of the next-offset loop) are regenerated from hrepack_sds.c.
-    PARTIAL: a complete small scope (rank 1..3 with extents 1..4, rank 4 with extents 1..3, element size 1 or 2,
-    every buffer size from the element size to 16 bytes; the buffer size is a parameter of the model, 1 MiB in the
-    tool).  Missing for the general statement: the induction over the rank (the strip sizes are slab-shaped: full
-    extents below one cut dimension, 1 above it; the odometer then advances the linear position by the block size).
-    The real sizes are covered by the differential run on arrays of 1x, 2x, 3x the buffer. *)
-Theorem strips_partition_in_order_partial : forall dims eltsz buf,
-  In dims small_dims -> In eltsz [1; 2] -> In buf small_bufs -> eltsz <= buf ->
+(** The strip-mining copy loop of copy_sds (objects of H4TOOLS_MALLOCSIZE bytes or more): for EVERY rank, every
+    positive extents, every element size and every buffer size that holds at least one element, the blocks the loop
+    reads and writes, taken in order and each in row-major order, are exactly the cells 0, 1, ..., N-1 of the array
+    -- every value is copied once, to its own place.  The loop's statements (strip size, hyperslab size, wrap test
+    and carry rule of the next-offset loop) are regenerated from hrepack_sds.c; the buffer size is a parameter
+    (H4TOOLS_BUFSIZE in the tool).  Proof: the strip sizes are slab-shaped (full extents below one cut dimension, 1
+    above it), an aligned offset yields a block of consecutive cells, and the odometer advances the linear position
+    by exactly the block size. *)
+Theorem strips_partition_in_order : forall dims eltsz buf,
+  Forall (fun d => 1 <= d) dims -> 0 < eltsz <= buf ->
   strip_order dims eltsz buf = Some (zcount 0 (Z.to_nat (zprod dims))).
-Proof. exact strips_partition_small_lemma. Qed.
-Print Assumptions strips_partition_in_order_partial.
+Proof. exact strips_partition_in_order_lemma. Qed.
+Print Assumptions strips_partition_in_order.
+
+(** Data movement of copy_sds, whichever path it takes (one piece with the generated start / edges, or strip by
+    strip; extents 0 -- a record variable without records -- included): every cell exactly once, in order.  Read and
+    write use the same blocks (copy_plumbing). *)
+Theorem copy_sds_moves_every_cell_once : forall dims eltsz buf flags comp,
+  Forall (fun d => 0 <= d) dims -> 0 < eltsz <= buf ->
+  copy_sds_moves dims eltsz buf flags comp = Some (zcount 0 (Z.to_nat (zprod dims))).
+Proof. exact copy_sds_moves_lemma. Qed.
+Print Assumptions copy_sds_moves_every_cell_once.
+
+(** copy_gr: one read and one write of the whole image with the generated start / edges. *)
+Theorem copy_gr_moves_every_cell_once : forall dims, Forall (fun d => 0 <= d) dims ->
+  copy_gr_moves dims = zcount 0 (Z.to_nat (zprod dims)).
+Proof. exact copy_gr_moves_lemma. Qed.
+Print Assumptions copy_gr_moves_every_cell_once.
 
 (** Every object is copied exactly once as far as the tag tables go: each member tag under which vgroup_insert
     copies an SDS / image / vdata is among the tags the top-level pass of that kind searches to skip objects already
@@ -153,6 +167,11 @@ Print Assumptions copy_sds_dim_scale_plumbing.
 Example traversal_nonempty : In DFTAG_RI insert_image_tags /\ In DFTAG_RIG insert_image_tags /\ In DFTAG_NDG insert_sds_tags /\
   nth_error copy_gr_created 3 = Some [100; 116; 121; 112; 101] /\ nth_error copy_gr_inquired 3 = Some [100; 116; 121; 112; 101].
 Proof. vm_compute. intuition. Qed.
+
+Example strips_real_size : exists n, strips [3; 300; 1000] 4 H4TOOLS_BUFSIZE = Some n /\ length n = 6%nat /\
+  copy_sds_moves [3; 0; 5] 4 H4TOOLS_BUFSIZE HDF_NONE COMP_CODE_NONE = Some [] /\
+  copy_gr_moves [2; 3] = [0; 1; 2; 3; 4; 5].
+Proof. eexists. split; [vm_compute; reflexivity|]. split; [reflexivity|]. split; vm_compute; reflexivity. Qed.
 
 Example strip_walk_runs :
   strips [2; 3] 2 4 = Some [([0; 0], [1; 2]); ([0; 2], [1; 1]); ([1; 0], [1; 2]); ([1; 2], [1; 1])] /\
